@@ -541,6 +541,12 @@ def b_any_all(which):
             if which == "any":
                 return VBool(z3.Or(ts + [z3.BoolVal(False)]))
             return VBool(z3.And(ts + [z3.BoolVal(True)]))
+        if isinstance(v, VSeq) and getattr(v.elem, "kind", None) == "bool":
+            i = z3.Int(it.ctx.namer("i!" + which))
+            rng = z3.And(0 <= i, i < z3.Length(v.z))
+            if which == "any":
+                return VBool(z3.Exists([i], z3.And(rng, v.z[i])))
+            return VBool(z3.ForAll([i], z3.Implies(rng, v.z[i])))
         raise OutOfSubset(which)
     return f
 
@@ -1224,8 +1230,101 @@ def install_default_models(reg):
             return VTuple([VInt(unbe4_of(it, b.z))])
         raise OutOfSubset(f"struct.unpack {fmt}")
 
-    em["struct.pack"] = struct_pack
-    em["struct.unpack"] = struct_unpack
+    # ---- general fixed-size integer formats with an explicit byte order ('>2l', '<H', '!BB', ...): by definition
+    _SZ = {"B": (1, False), "b": (1, True), "H": (2, False), "h": (2, True), "L": (4, False), "l": (4, True),
+           "I": (4, False), "i": (4, True), "Q": (8, False), "q": (8, True)}
+
+    def _parse_fmt(fmt):
+        import re as _re
+        if not isinstance(fmt, str) or not fmt or fmt[0] not in "<>!":
+            return None
+        items = []
+        for cnt, code in _re.findall(r"(\d*)([A-Za-z])", fmt[1:].replace(" ", "")):
+            if code not in _SZ:
+                return None
+            items += [_SZ[code]] * (int(cnt) if cnt else 1)
+        if "".join(f"{c}{k}" for c, k in _re.findall(r"(\d*)([A-Za-z])", fmt[1:].replace(" ", ""))) != fmt[1:].replace(" ", ""):
+            return None
+        return ("big" if fmt[0] in ">!" else "little"), items
+
+    def _int_of(it, bz, off, size, signed, order):
+        tot = z3.IntVal(0)
+        rng = range(size) if order == "big" else range(size - 1, -1, -1)
+        for i in rng:
+            c = z3.StrToCode(z3.SubString(bz, off + i, 1))
+            it.ctx.assume(z3.And(c >= 0, c <= 255))
+            tot = tot * 256 + c
+        if signed:
+            tot = z3.If(tot >= 2 ** (8 * size - 1), tot - 2 ** (8 * size), tot)
+        return tot
+
+    def _unpack_general(it, fmt, b, off):
+        pf = _parse_fmt(fmt)
+        if pf is None or not (isinstance(b, VStr) and b.kind == "bytes"):
+            raise OutOfSubset(f"struct.unpack {fmt}")
+        order, items = pf
+        total = sum(sz for sz, _ in items)
+        offz = it._num(off) if off is not None else None
+        if offz is None:
+            if it.ctx.branch(z3.Length(b.z) != total):
+                it.raise_("struct.error")
+            offz = z3.IntVal(0)
+        else:
+            if it.ctx.branch(z3.Or(offz < 0, z3.Length(b.z) - offz < total)):
+                it.raise_("struct.error")       # (a negative offset counts from the end in CPython: not modelled, treated as an error)
+        out, pos = [], 0
+        for sz, signed in items:
+            out.append(VInt(_int_of(it, b.z, offz + pos, sz, signed, order)))
+            pos += sz
+        return VTuple(out)
+
+    def struct_unpack2(it, args, kw):
+        fmt = it.concrete(it.force(args[0]))
+        if fmt in (">L", ">I", "!L", "!I"):
+            return struct_unpack(it, args, kw)
+        return _unpack_general(it, fmt, it.force(args[1]), None)
+
+    def struct_unpack_from(it, args, kw):
+        fmt = it.concrete(it.force(args[0]))
+        off = it.force(args[2]) if len(args) > 2 else (it.force(kw["offset"]) if "offset" in kw else VInt(0))
+        return _unpack_general(it, fmt, it.force(args[1]), off)
+
+    def struct_pack2(it, args, kw):
+        fmt = it.concrete(it.force(args[0]))
+        if fmt in (">L", ">I", "!L", "!I") and len(args) == 2:
+            return struct_pack(it, args, kw)
+        pf = _parse_fmt(fmt)
+        if pf is None:
+            raise OutOfSubset(f"struct.pack {fmt}")
+        order, items = pf
+        if len(args) - 1 != len(items):
+            it.raise_("struct.error")
+        total = sum(sz for sz, _ in items)
+        r = z3.String(it.ctx.namer("packed"))
+        it.ctx.assume(z3.Length(r) == total)
+        pos = 0
+        for (sz, signed), a in zip(items, args[1:]):
+            v = it.force(a)
+            if not isinstance(v, (VInt, VBool)):
+                it.raise_("struct.error")
+            z = it._num(v)
+            lo, hi = (-(2 ** (8 * sz - 1)), 2 ** (8 * sz - 1)) if signed else (0, 2 ** (8 * sz))
+            if it.ctx.branch(z3.Or(z < lo, z >= hi)):
+                it.raise_("struct.error")
+            it.ctx.assume(_int_of(it, r, z3.IntVal(pos), sz, signed, order) == z)
+            pos += sz
+        return VStr(r, "bytes")
+
+    def struct_calcsize(it, args, kw):
+        pf = _parse_fmt(it.concrete(it.force(args[0])))
+        if pf is None:
+            raise OutOfSubset("struct.calcsize")
+        return VInt(sum(sz for sz, _ in pf[1]))
+
+    em["struct.pack"] = struct_pack2
+    em["struct.unpack"] = struct_unpack2
+    em["struct.unpack_from"] = struct_unpack_from
+    em["struct.calcsize"] = struct_calcsize
 
     def hexlify(it, args, kw):
         b = it.force(args[0])
